@@ -361,50 +361,71 @@ def readPtsLines (L : Lex) : List Line → Except Err (List PtsPoint)
 
 def readPts (L : Lex) (bs : List UInt8) : Except Err (List PtsPoint) := readPtsLines L (scanLines bs)
 
-/-! ## iteration counts
+/-! ## iteration counts: instrumented readers
 
-  The loops above are structural recursions: every call either stops or recurses on a strictly shorter
-  input (the tail of the line list; the bytes after a record).  The functions below count the iterations
-  of the same recursions (same case analysis, results dropped), so that "the number of iterations is
-  bounded by the size of the input" is a statement (`Props/C14.lean: reader_steps_linear_*`).
-  `Splat.readRecs` carries its own counter. -/
+  `xI` is the loop `x` with an iteration counter threaded through the SAME recursion: it returns the pair
+  (result of `x`, number of iterations made).  `Lemmas/Readers.lean` proves `(xI …).1 = x …` (the
+  instrumented function computes exactly the reader's result) and `Props/C14.lean` bounds `(xI …).2` by
+  the size of the input.  `Splat.readRecs` carries its counter itself. -/
 
-/-- iterations of `readArrays`: one per read attempted -/
-def readArraysSteps : List Nat → List UInt8 → Nat
-  | [], _ => 0
-  | n :: ns, bs => if n ≤ bs.length then 1 + readArraysSteps ns (bs.drop n) else 1
+/-- `readArrays` with the number of reads attempted -/
+def readArraysI : List Nat → List UInt8 → Option (List (List UInt8) × List UInt8) × Nat
+  | [], bs => (some ([], bs), 0)
+  | n :: ns, bs =>
+    if n ≤ bs.length then
+      let r := readArraysI ns (bs.drop n)
+      (match r.1 with
+       | some (as, rest) => some (bs.take n :: as, rest)
+       | none => none, r.2 + 1)
+    else (none, 1)
 
-/-- iterations of the vertex loop `asciiVerts` (one `scanner.Scan()` each) -/
-def asciiVertsSteps (L : Lex) (nprops : Nat) : List Line → Nat → Nat
-  | _, 0 => 0
-  | [], _ + 1 => 1
+/-- `asciiVerts` with the number of `scanner.Scan()` calls -/
+def asciiVertsI (L : Lex) (nprops : Nat) : List Line → Nat → Except Err (List (List Tok) × List Line) × Nat
+  | ls, 0 => (.ok ([], ls), 0)
+  | [], _ + 1 => (.error .short, 1)
   | l :: ls, n + 1 =>
-    if l.blank then 1 + asciiVertsSteps L nprops ls (n + 1)
-    else if l.toks.length < nprops then 1
-    else if !((l.toks.take nprops).all L.floatOk) then 1
-    else 1 + asciiVertsSteps L nprops ls n
+    if l.blank then
+      let r := asciiVertsI L nprops ls (n + 1)
+      (r.1, r.2 + 1)
+    else if l.toks.length < nprops then (.error .short, 1)
+    else if !((l.toks.take nprops).all L.floatOk) then (.error .malformed, 1)
+    else
+      let r := asciiVertsI L nprops ls n
+      (match r.1 with
+       | .error e => .error e
+       | .ok (vs, rest) => .ok (l.toks :: vs, rest), r.2 + 1)
 
-/-- iterations of the face loop `asciiFaces` -/
-def asciiFacesSteps (L : Lex) (f : FaceHdr) : List Line → Nat → Nat
-  | _, 0 => 0
-  | [], _ + 1 => 1
+/-- `asciiFaces` with the number of `scanner.Scan()` calls -/
+def asciiFacesI (L : Lex) (f : FaceHdr) : List Line → Nat → Except Err (List (Nat × List Tok)) × Nat
+  | _, 0 => (.ok [], 0)
+  | [], _ + 1 => (.error .short, 1)
   | l :: ls, n + 1 =>
-    if l.blank then 1 + asciiFacesSteps L f ls (n + 1)
+    if l.blank then
+      let r := asciiFacesI L f ls (n + 1)
+      (r.1, r.2 + 1)
     else
       match asciiFaceLine L f 0 f.lists.length l.toks none with
-      | .error _ => 1
-      | .ok _ => 1 + asciiFacesSteps L f ls n
+      | .error e => (.error e, 1)
+      | .ok p =>
+        let r := asciiFacesI L f ls n
+        (match r.1 with
+         | .error e => .error e
+         | .ok fs => .ok ((p, l.toks) :: fs), r.2 + 1)
 
-/-- iterations of the point loop `ptsLoop` -/
-def ptsLoopSteps (L : Lex) : List Line → Nat → Option Nat → Nat
-  | _, 0, _ => 0
-  | [], _ + 1, _ => 1
+/-- `ptsLoop` with the number of lines consumed -/
+def ptsLoopI (L : Lex) : List Line → Nat → Option Nat → Except Err (List PtsPoint) × Nat
+  | _, 0, _ => (.ok [], 0)
+  | [], _ + 1, _ => (.error .short, 1)
   | l :: ls, n + 1, fpp =>
-    if l.toks.isEmpty then 1
-    else if l.toks.length < 3 then 1
-    else if (match fpp with | some k => l.toks.length != k | none => false) then 1
-    else if !ptsTokensOk L l.toks then 1
-    else ptsLoopSteps L ls n (some l.toks.length) + 1
+    if l.toks.isEmpty then (.error .malformed, 1)
+    else if l.toks.length < 3 then (.error .short, 1)
+    else if (match fpp with | some k => l.toks.length != k | none => false) then (.error .short, 1)
+    else if !ptsTokensOk L l.toks then (.error .malformed, 1)
+    else
+      let r := ptsLoopI L ls n (some l.toks.length)
+      (match r.1 with
+       | .error e => .error e
+       | .ok ps => .ok (ptsPoint l.toks :: ps), r.2 + 1)
 
 /-! ## the pinned ASCII face loop (before bd55314), kept as a record of the defect
 
